@@ -433,6 +433,241 @@ func genSeq(r *hx.Rng, maxOps int) (string, []string) {
 	return kind, ops
 }
 
+type gcVersion struct {
+	root    common.Hash
+	content map[string][]byte
+}
+
+func copyContent(m map[string][]byte) map[string][]byte {
+	c := make(map[string][]byte, len(m))
+	for k, v := range m {
+		c[k] = v
+	}
+	return c
+}
+
+func sortedKeys(m map[string][]byte) []string {
+	ks := make([]string, 0, len(m))
+	for k := range m {
+		ks = append(ks, k)
+	}
+	sort.Strings(ks)
+	return ks
+}
+
+// checkRoot reopens root on tdb and compares with the recorded content.
+func checkRoot(tdb *trie.Database, v gcVersion, probes [][]byte) string {
+	return hx.Safe(func() string {
+		t, err := trie.New(v.root, tdb)
+		if err != nil {
+			return "reopen-error: " + err.Error()
+		}
+		for _, k := range probes {
+			got, err := t.TryGet(k)
+			if err != nil {
+				return "get-error: " + err.Error()
+			}
+			if !bytes.Equal(got, v.content[string(k)]) {
+				return fmt.Sprintf("wrong-value key=%x", k)
+			}
+		}
+		n := 0
+		it := trie.NewIterator(t.NodeIterator(nil))
+		for it.Next() {
+			if !bytes.Equal(it.Value, v.content[string(it.Key)]) {
+				return fmt.Sprintf("iterator-wrong key=%x", it.Key)
+			}
+			n++
+		}
+		if it.Err != nil {
+			return "iterator-error: " + it.Err.Error()
+		}
+		if n != len(v.content) {
+			return fmt.Sprintf("iterator-count %d want %d", n, len(v.content))
+		}
+		if t.Hash() != v.root {
+			return "hash-differs"
+		}
+		return "ok"
+	})
+}
+
+func gcHistory(run *hx.Run, r *hx.Rng) {
+	disk := aquadb.NewMemDatabase()
+	tdb := trie.NewDatabase(disk)
+	keys := genKeys(r, r.Intn(4))
+	empty := trie.VerifEmptyRoot()
+	var versions []gcVersion
+	verPins := []int{} // outstanding pins taken by version i (0 or 1)
+	pins := map[common.Hash]int{}
+	var ops, outs []string
+	fail := func(kind, detail string) {
+		run.Violate(kind, "gc", map[string]interface{}{"history": "G " + strings.Join(ops, "|")}, detail)
+	}
+	gcCheck := func() bool {
+		ok := true
+		for i, v := range versions {
+			if verPins[i] == 0 && pins[v.root] == 0 {
+				continue
+			}
+			if pins[v.root] == 0 || v.root == empty {
+				continue
+			}
+			if res := checkRoot(tdb, v, keys); res != "ok" {
+				fail("gc-lost-referenced-root", fmt.Sprintf("version %d root %x has %d outstanding reference(s) but: %s", i, v.root, pins[v.root], res))
+				ok = false
+			}
+		}
+		hs := tdb.Nodes()
+		sort.Slice(hs, func(a, b int) bool { return bytes.Compare(hs[a][:], hs[b][:]) < 0 })
+		var cat []byte
+		for _, h := range hs {
+			cat = append(cat, h[:]...)
+		}
+		ops = append(ops, "k")
+		outs = append(outs, fmt.Sprintf("%d:%s", len(hs), hx.Hex(sha3.Keccak256(cat)[:8])))
+		return ok
+	}
+	newVersion := func(base int, content map[string][]byte, muts []string) bool {
+		baseRoot := common.Hash{}
+		b := "-"
+		if base >= 0 {
+			baseRoot, b = versions[base].root, fmt.Sprint(base)
+		}
+		t, err := trie.New(baseRoot, tdb)
+		if err != nil {
+			fail("gc-lost-referenced-root", fmt.Sprintf("cannot open pinned base version %d: %v", base, err))
+			return false
+		}
+		for _, m := range muts {
+			kv := strings.Split(m, "=")
+			if err := t.TryUpdate(unhex(kv[0]), unhex(kv[1])); err != nil {
+				fail("gc-lost-referenced-root", "update on pinned base failed: "+err.Error())
+				return false
+			}
+		}
+		root, err := t.Commit(nil)
+		if err != nil {
+			fail("trie-error", err.Error())
+			return false
+		}
+		if root != empty {
+			tdb.Reference(root, common.Hash{})
+			pins[root]++
+			verPins = append(verPins, 1)
+		} else {
+			verPins = append(verPins, 0)
+		}
+		versions = append(versions, gcVersion{root, content})
+		ops = append(ops, "v:"+b+":"+strings.Join(muts, ";"))
+		outs = append(outs, hx.Hex(root.Bytes()))
+		return true
+	}
+	pinnedVersions := func() []int {
+		var ps []int
+		for i := range versions {
+			if verPins[i] > 0 {
+				ps = append(ps, i)
+			}
+		}
+		return ps
+	}
+	steps := 6 + r.Intn(10)
+	for s := 0; s < steps; s++ {
+		ps := pinnedVersions()
+		x := r.Intn(100)
+		switch {
+		case len(versions) == 0 || x < 35: // mutate a pinned version (or start from the empty trie)
+			base := -1
+			content := map[string][]byte{}
+			if len(ps) > 0 && r.Intn(5) > 0 {
+				base = ps[r.Intn(len(ps))]
+				content = copyContent(versions[base].content)
+			}
+			var muts []string
+			for j := 0; j < 1+r.Intn(4); j++ {
+				k := keys[r.Intn(len(keys))]
+				if r.Intn(4) == 0 {
+					muts = append(muts, hx.Hex(k)+"=-")
+					delete(content, string(k))
+				} else {
+					v := genVal(r)
+					muts = append(muts, hx.Hex(k)+"="+hx.Hex(v))
+					content[string(k)] = v
+				}
+			}
+			if !newVersion(base, content, muts) {
+				return
+			}
+		case x < 55 && len(ps) > 0: // return to the content of an EARLIER version from a pinned one (A -> B -> A)
+			base := ps[r.Intn(len(ps))]
+			target := versions[r.Intn(len(versions))].content
+			cur := versions[base].content
+			var muts []string
+			for _, k := range sortedKeys(cur) {
+				if _, ok := target[k]; !ok {
+					muts = append(muts, hx.Hex([]byte(k))+"=-")
+				}
+			}
+			for _, k := range sortedKeys(target) {
+				if !bytes.Equal(cur[k], target[k]) {
+					muts = append(muts, hx.Hex([]byte(k))+"="+hx.Hex(target[k]))
+				}
+			}
+			if !newVersion(base, copyContent(target), muts) {
+				return
+			}
+		case x < 68: // rebuild the content of an earlier version from scratch in a shuffled insertion order
+			target := versions[r.Intn(len(versions))].content
+			ks := sortedKeys(target)
+			for j := len(ks) - 1; j > 0; j-- {
+				k := r.Intn(j + 1)
+				ks[j], ks[k] = ks[k], ks[j]
+			}
+			var muts []string
+			for _, k := range ks {
+				muts = append(muts, hx.Hex([]byte(k))+"="+hx.Hex(target[k]))
+			}
+			if !newVersion(-1, copyContent(target), muts) {
+				return
+			}
+		case x < 90 && len(ps) > 0: // release one pin
+			i := ps[r.Intn(len(ps))]
+			tdb.Dereference(versions[i].root, common.Hash{})
+			pins[versions[i].root]--
+			verPins[i] = 0
+			ops = append(ops, fmt.Sprintf("f:%d", i))
+		default:
+			if !gcCheck() {
+				return
+			}
+		}
+	}
+	ok := gcCheck()
+	run.Case("G "+strings.Join(ops, "|"), strings.Join(outs, "|"))
+	run.Count("gc-history")
+	if !ok {
+		return
+	}
+	// flush every still-pinned root to disk and reopen through a fresh node database
+	for _, v := range versions {
+		if pins[v.root] > 0 && v.root != empty {
+			if err := tdb.Commit(v.root, false); err != nil {
+				fail("trie-error", "Database.Commit: "+err.Error())
+			}
+		}
+	}
+	fresh := trie.NewDatabase(disk)
+	for i, v := range versions {
+		if pins[v.root] > 0 && v.root != empty {
+			run.Count("gc-pinned-root-checked")
+			if res := checkRoot(fresh, v, keys); res != "ok" {
+				fail("gc-lost-referenced-root", fmt.Sprintf("after Database.Commit + fresh Database: version %d root %x (%d outstanding reference(s)): %s", i, v.root, pins[v.root], res))
+			}
+		}
+	}
+}
+
 type byteList [][]byte
 
 func (l byteList) Len() int            { return len(l) }
@@ -796,6 +1031,20 @@ func main() {
 		if !strings.HasPrefix(res, "ok-") && res != "root-missing" {
 			run.Violate("missing-node-misbehaviour", "missing-node", input, res)
 		}
+	}
+
+	// 7. the reference-counted node store (trie.Database Reference / Dereference — state pruning as core/blockchain does):
+	//    versions committed in memory and pinned with Reference(root, {}), incl. REPEATED identical contents (A -> B -> A,
+	//    the same content rebuilt in another insertion order); some pins released; then every root with an outstanding
+	//    pin must reopen and reproduce its content, survive Database.Commit to disk and reopen through a fresh Database.
+	//    The model (Model.TrieGc) replays the same ops and must end up with the same SET of cached nodes.
+	r7 := rng.Fork(7)
+	nGc := 250
+	if run.Thorough() {
+		nGc = 4000
+	}
+	for i := 0; i < nGc; i++ {
+		gcHistory(run, r7)
 	}
 
 	// a run that produced (almost) no cases is a broken correspondence, never a pass
